@@ -2092,11 +2092,16 @@ async fn run_hist(h: &Hist, stats: &mut Stats) -> Vec<Finding> {
 
 /// Keys with a known shard relation: two string keys and a hash key on one shard, a string and a hash key elsewhere.
 fn c08_keys() -> Vec<String> {
-    let on = |prefix: &str, shard: Option<usize>, not: Option<usize>| (0..400).map(|i| format!("{}{}", prefix, i)).filter(|k| shard.map_or(true, |s| shard_of(k) == s) && Some(shard_of(k)) != not).collect::<Vec<_>>();
+    // odd candidates carry a Redis-Cluster style {hash tag}: the shard that observes a key (recovery, remote delta) and the
+    // shard that stamps the next write of it must be the same one whatever the name looks like
+    let name = |prefix: &str, i: usize| if i % 2 == 1 { format!("{}{}{{g{}}}", prefix, i, i) } else { format!("{}{}", prefix, i) };
+    let on = |prefix: &str, shard: Option<usize>, not: Option<usize>| (0..800).map(|i| name(prefix, i)).filter(|k| shard.map_or(true, |s| shard_of(k) == s) && Some(shard_of(k)) != not).collect::<Vec<_>>();
+    let tagged = |v: &[String]| v.iter().find(|k| k.contains('{')).cloned().expect("a tagged candidate");
     let s = shard_of("s0");
     let same = on("s", Some(s), None);
     let other = on("s", None, Some(s));
-    vec![same[0].clone(), same[1].clone(), on("h", Some(s), None)[0].clone(), other[0].clone(), on("h", None, Some(s)).into_iter().find(|k| shard_of(k) != shard_of(&other[0])).unwrap()]
+    let o = tagged(&other);
+    vec![same[0].clone(), tagged(&same), on("h", Some(s), None)[0].clone(), o.clone(), on("h", None, Some(s)).into_iter().find(|k| shard_of(k) != shard_of(&o)).unwrap()]
 }
 
 fn gen_hist(rng: &mut Rng, keys: &[String], case: u64) -> Hist {
